@@ -57,6 +57,9 @@ GRAMMARS = {
 # grammars whose whitespace pattern can match the empty string
 WS_GRAMMARS = {
     'ws-nullable': "@@whitespace :: /\\s*/\n\nstart: {'a'}+ $ ;\n",
+    # comment patterns that match without taking input (and return a group, so the match is not an empty string)
+    'comments-lookahead-group': "@@comments :: /(?=(#))/\n\nstart: {'a' | '#'}+ $ ;\n",
+    'eol-comments-lookahead-group': "@@eol_comments :: /(?=(a))/\n\nstart: {'a' | '#'}+ $ ;\n",
 }
 
 
@@ -221,7 +224,7 @@ def shard_grammars(m, items):
 # ------------------------------------------------------------------ (c) lexeme bodies
 
 TOKEN_ALPHA = ['\\', 'x', 'N', 'u', '{', '}', '0', 'z']
-PATTERN_LEX = ['(?a)', '(?u)', '(?i)', '(?x)', '(?L)', '(?P<n>', '(?P=n)', '(?#', '\\1', 'a', '(', ')', '\\', '"', "'", '*', '+', '?', '[', ']', '{', '}', '^', '|', '{2,1}']
+PATTERN_LEX = ['a{99999999999999999999}', '(?a)', '(?u)', '(?i)', '(?x)', '(?L)', '(?P<n>', '(?P=n)', '(?#', '\\1', 'a', '(', ')', '\\', '"', "'", '*', '+', '?', '[', ']', '{', '}', '^', '|', '{2,1}']
 CONST_ALPHA = ['{', '}', '[', ']', ':', '1', 'x', ',', '(', ')', "'", ' ', '*', '.']
 
 
@@ -439,13 +442,15 @@ def run(rc):
     ts = list(texts(maxlen))
     # longer, targeted inputs for the meta matchers
     ts += ['12_', '1__0', '1_000', '-7_', '1.+5', '1.e', '1e+', '2.5_', '+', '-', '1e5', 'true', 'True', 'false ', 'tru', '²', '１２',
-           'a\r\n\r\na', '\r\r\n\n', 'é' * 5, '\x00\x00', '1 ' * 4, 'a' * 40]
+           'a\r\n\r\na', '\r\r\n\n', 'é' * 5, '\x00\x00', '1 ' * 4, 'a' * 40,
+           # more digits than the interpreter converts to an int by default (4300)
+           '1' * 4301, '-' + '7' * 5000, '1' * 5000 + '.5', '1.5e' + '9' * 5000, '1_' * 2500]
     items = []
     for name, g in GRAMMARS.items():
         for i in range(0, len(ts), 250):
             items.append((name, g, ts[i:i + 250]))
     for name, g in WS_GRAMMARS.items():
-        items.append((name, g, ['', 'a', ' a', 'a a', 'aa']))
+        items.append((name, g, ['', 'a', ' a', 'a a', 'aa', 'a #a', '#', 'a#', '# a']))
     rc.pmap(shard_inputs, items, chunk=1)
     rc.coverage['input_cases'] = {'grammars': len(GRAMMARS) + len(WS_GRAMMARS), 'texts_per_grammar': len(ts)}
     ed = []
